@@ -160,6 +160,8 @@ type Machine struct {
 	notes       []string
 	unknownFeas int
 	rng         map[string]int
+	inSummary   bool
+	prefs       map[*Term]string // preferred witness values of free atoms (witness hygiene)
 	inputs      map[string]Value // named symbolic inputs created by the harness API
 	inputOrder  []string
 }
@@ -197,9 +199,52 @@ func (m *Machine) feasible(extra *Term) Result {
 	if m.pcSet[TNot(extra)] {
 		return Unsat
 	}
-	q := append(append([]*Term{}, m.pc...), extra)
-	r, _ := m.solver.Check(q, false)
+	q := append(sliceIndependent(m.pc, extra), extra)
+	r, _ := m.solver.CheckOn(1, q, false)
 	return r
+}
+
+// sliceIndependent keeps only the constraints of pc that (transitively) share a variable
+// with extra. The path condition is satisfiable by invariant, so the dropped part cannot
+// change the answer (constraint independence; exact).
+func sliceIndependent(pc []*Term, extra *Term) []*Term {
+	vars := map[*Term]struct{}{}
+	for a := range extra.Atoms() {
+		vars[a] = struct{}{}
+	}
+	if len(vars) == 0 {
+		return append([]*Term{}, pc...)
+	}
+	used := make([]bool, len(pc))
+	for changed := true; changed; {
+		changed = false
+		for i, t := range pc {
+			if used[i] {
+				continue
+			}
+			hit := false
+			for a := range t.Atoms() {
+				if _, ok := vars[a]; ok {
+					hit = true
+					break
+				}
+			}
+			if hit {
+				used[i] = true
+				changed = true
+				for a := range t.Atoms() {
+					vars[a] = struct{}{}
+				}
+			}
+		}
+	}
+	var out []*Term
+	for i, t := range pc {
+		if used[i] {
+			out = append(out, t)
+		}
+	}
+	return out
 }
 
 // branch decides a symbolic condition, forking when both sides are feasible.
@@ -427,6 +472,7 @@ func (fr *frame) lookup(instr *ssa.Lookup, x, idx Value) Value {
 }
 
 func (m *Machine) mapLookup(mv *MapV, k Value, elemT types.Type) (Value, Value) {
+	m.flushPending(mv)
 	cands, guards, def := m.candidates(mv, k)
 	if def != nil {
 		return copyVal(*def.v), true
@@ -482,7 +528,38 @@ func (m *Machine) mapLookup(mv *MapV, k Value, elemT types.Type) (Value, Value) 
 	return copyVal(groups[d].val), true
 }
 
+// flushPending applies deferred updates (symbolic keys whose aliasing with existing keys
+// was not needed so far) before the map is read.
+func (m *Machine) flushPending(mv *MapV) {
+	if mv == nil || len(mv.pendingK) == 0 {
+		return
+	}
+	ks, vs := mv.pendingK, mv.pendingV
+	mv.pendingK, mv.pendingV = nil, nil
+	for i := range ks {
+		m.mapUpdateNow(mv, ks[i], vs[i])
+	}
+}
+
 func (m *Machine) mapUpdate(mv *MapV, k Value, v Value) {
+	if len(mv.pendingK) > 0 {
+		mv.pendingK = append(mv.pendingK, k)
+		mv.pendingV = append(mv.pendingV, copyVal(v))
+		return
+	}
+	if _, c1, _, c2 := constKey(k); !c1 && !c2 {
+		cands, _, def := m.candidates(mv, k)
+		if def == nil && len(cands) > 0 {
+			// aliasing with existing symbolic keys is undecided: defer until the map is read
+			mv.pendingK = append(mv.pendingK, k)
+			mv.pendingV = append(mv.pendingV, copyVal(v))
+			return
+		}
+	}
+	m.mapUpdateNow(mv, k, v)
+}
+
+func (m *Machine) mapUpdateNow(mv *MapV, k Value, v Value) {
 	cands, guards, def := m.candidates(mv, k)
 	if def != nil {
 		*def.v = copyVal(v)
@@ -503,6 +580,7 @@ func (m *Machine) mapUpdate(mv *MapV, k Value, v Value) {
 }
 
 func (m *Machine) mapDelete(mv *MapV, k Value) {
+	m.flushPending(mv)
 	cands, guards, def := m.candidates(mv, k)
 	del := func(e *MapEntry) {
 		e.deleted = true
